@@ -33,7 +33,7 @@ PROPS = {
                 "significant field changed), hashes canonicalised by first appearance, observed tag order compared; (c) fail/retry flows through "
                 "Finish + the real generator; (d) 150 / 2500 fail/retry histories (each drawing from 2-4 request identities, so that most failures are followed by a retry) through the REAL OpenAPI wrappers CreateNetworkInterface, AssignPrivateIPAddress2, AssignIpv6Addresses2, CreateElasticNetworkInterfaceV2 and the v1 wrappers AssignPrivateIPAddress / AssignIpv6Addresses (ops tok.a*, tok.b*) over the real SDK clients "
                 "whose HTTP transport is the harness (answers: success, HTTP 400 server error, EFLO HTTP 200 with a non-zero business code, or Throttling on every attempt until the wrapper's back-off of three steps is exhausted): the ClientToken read off the wire is compared with the model's flow, monitors: a retry after a failed call "
-                "carries another token, the token on the wire is not the one the generator issued, one call sends two tokens. Every builder case also checks, model-independently, that requests differing in what is sent never hash alike and equal requests hash alike. non-trivial = history with at least one token reuse / builder case with >= 2 tags / flow with a failure; "
+                "carries another token, the token on the wire is not the one the generator issued, one call sends two tokens. (a') 60 / 600 concurrent cases: n requests of one parameter hash issued at the same time and then - all in flight - rolled back at the same time (tok.par: spin barrier on locked OS threads), followed by n retries whose tokens are compared as a set (tok.drain; monitor C16/retry-token/concurrent-rollback-lost). Every builder case also checks, model-independently, that requests differing in what is sent never hash alike and equal requests hash alike. non-trivial = history with at least one token reuse / builder case with >= 2 tags / flow with a failure; "
                 "distinct = distinct op sequence.",
         "technique": "Lean 4 invariants by induction over all issue/roll-back histories (LRU residency, token uniqueness, provenance), sort-based order-independence lemma; differential correspondence + Go monitors",
         "level_text": "Theorems over all histories of GenerateKey/PutBack (every interleaving, since each call is atomic under the mutex): retry draws the put-back token "
@@ -54,7 +54,7 @@ PROPS = {
                      "C17.c17_exhausted_not_chosen", "C17.block_marks", "C17.getOne_choice"],
         "rule": "random histories on the real SwitchPool (hooked fake clock, fake VPC client): 2-7 vSwitches over 3 zones with free counts incl. 0, "
                 "GetOne with all four policy values (ordered/most/random/empty), zone fallback on/off, candidate lists of 0-6 ids incl. duplicates and unknown ids, "
-                "Block (preceded by a look-up that is single or, in a quarter of the cases, 2-4 concurrent look-ups sharing one describe call: op vsw.getpar, monitor: the entry is cached afterwards), clock steps around the TTL boundary (ttl-1, ttl, ttl+1), cloud changes/removals, Add. Model predicts choice and caller slice for "
+                "Block (in 30% of the cases followed by a read shortly before the entry expires and a selection shortly after: a read must not prolong the exhausted mark; preceded by a look-up that is single or, in a quarter of the cases, 2-4 concurrent look-ups sharing one describe call: op vsw.getpar, monitor: the entry is cached afterwards), clock steps around the TTL boundary (ttl-1, ttl, ttl+1), cloud changes/removals, Add. Model predicts choice and caller slice for "
                 "ordered/most/default, validates the observed choice for random; Go monitors on every selection: member of the list, zone, free addresses, not blocked, caller slice untouched, and for ordered / default no earlier eligible candidate. non-trivial = history with at least one selection and one Block; distinct = distinct op sequence.",
         "technique": "Lean 4 refinement of GetOne to a pure selection over resolved candidates (lookup stability under cache fills) + characterisation lemmas; differential correspondence + Go monitors",
         "level_text": "Theorems for all candidate lists, zones, free counts, policies and all cache/cloud states: choice is a member with free addresses, in the requested zone unless fallback and no in-zone candidate is eligible, "
@@ -206,7 +206,7 @@ PROPS["C04"] = {
     "rule": _DW_RULE + " Where requests wait for the cloud (which the daemon world, whose pool is exactly full, never does): 60 / 400 cases of the pool world of C07 run inside this check (pl.* lines, Model/Pool.lean); its monitor 'address owned by a pod that holds none' counts here as C04/pool/failed-add-keeps-address.",
     "technique": "Lean 4 theorems over a state-machine model of the daemon's request handling (pending set, record store, pool bindings) with an invariant proved for all histories; differential correspondence of every event against the real service",
     "level_text": "Theorems for all states/histories: a request for a pod with one in flight is answered 'processing' with no effect; DEL/GET with a non-recorded sandbox ID change nothing and return no allocation; a repeated ADD returns the recorded addresses (under the all-histories invariant); a repeated DEL is a no-op; an ADD failing before or after the pool served it leaves the state unchanged; no request changes another pod's record or bindings. Goroutine schedules are covered at the granularity of the pending-set guard and the RW lock (requests parked in GetPod), not at instruction level: partial.",
-    "level_note": "Trusted: Lean kernel; the model is tied to the code by the correspondence run only. Not modelled: resourceDB.Put / defaultForNetConf failing after allocation (cannot be injected without changing behaviour), RemoteIP/trunk resources, cancellation at points other than 'before the pool' and 'while the pool serves'.",
+    "level_note": "Trusted: Lean kernel; the model is tied to the code by the correspondence run only. Not modelled: resourceDB.Put / defaultForNetConf failing after allocation (cannot be injected without changing behaviour), RemoteIP/trunk resources, cancellation at points other than 'before the pool' and 'while the pool serves' in the daemon world (cancellation while a request waits for the cloud is reached by the pool-world slice).",
     "assumptions": _DW_ASSUME,
     "trusted_base": _DW_TRUST,
     "design_ref": "DESIGN.md §4 C04",
@@ -319,7 +319,7 @@ PROPS["C02"] = {
     "lean": ["C02"],
     "required": ["C02.c02_binding_never_moves", "C02.c02_new_binding_sound", "C02.c02_one_address_per_family", "C02.c02_wellformed_preserved", "C02.c02_entries_kept",
                  "C02.c02_rdma_only_for_rdma_pods", "C02.c02_merge_keeps_known", "C02.c02_merge_ips", "C02.c02_merge_no_new_binding"],
-    "rule": _IP_RULE + " Every 8th C02 case lists 1-5 pods of the node (host-network / pod-ENI / finished pods, RDMA limits on an init container or a later container) through the real getPods over a fake client (op ip.pods; monitor: a pod none of whose containers asks for RDMA is classified as needing an RDMA interface). Every 8th C02 case is a cloud-drift case: the addresses a full synchronisation finds on one interface (80% of the recorded ones, a quarter of them reported as not available, plus 0-2 unknown ones) through the real mergeIPMap (op ip.merge), compared with Model/Ipam.lean mergeEntries; monitors: a bound valid address the cloud still reports is changed or dropped.",
+    "rule": _IP_RULE + " Every 8th C02 case lists 1-5 pods of the node (host-network / pod-ENI / finished pods, RDMA limits on an init container or a later container) through the real getPods over a fake client (op ip.pods; monitor: a pod none of whose containers asks for RDMA is classified as needing an RDMA interface). Every 8th C02 case is a cloud-drift case: the addresses a full synchronisation finds on one interface (80% of the recorded ones, a quarter of them reported as not available, plus 0-2 unknown ones) through the real mergeIPMap (op ip.merge), compared with Model/Ipam.lean mergeEntries (a recorded family without addresses is passed as the nil map the API object reads back as; 15% of the merge cases force it); monitors: a bound valid address the cloud still reports is changed or dropped.",
     "technique": "Lean 4: the assignment step as a relation between the record before and after (quantified over Go's map orders), theorems about everything the relation admits; every outcome of the real assignIPFromLocalPool is checked to satisfy the relation",
     "level_text": "Theorems about every outcome the relation admits: a pod is classified (needs IPv4 / IPv6 / an RDMA interface) from its own containers and the node's switches only, whatever else is listed; a binding never moves between pods; a new binding goes to a pod of the node that needs that family and has none, to exactly the address it reports (re-adoption) or a valid unbound address on an interface in use, RDMA interfaces to RDMA pods only, IPv6 on the interface of the pod's IPv4 address; at most one address per pod and family; addresses and their status untouched; the full synchronisation's merge leaves every address known to both sides exactly as recorded (bound addresses stay bound and valid), keeps exactly the addresses the cloud reports and binds nothing. That the real function only produces admitted outcomes is validated, not proved; beyond the merge of one interface, cloud drift (interfaces appearing / vanishing) and controller restarts enter only as arbitrary initial records and through the closed-loop runs: partial.",
     "level_note": "Trusted: Lean kernel; Model/Ipam.lean relates to the code by the correspondence run only. The daemon's read-back (crdv2.go multiIP) is modelled only as to which interface a result describes (C12, crdOwner).",
